@@ -101,7 +101,9 @@ def roundtrip(res, sub, kind, doc, context=(), label="", mech="", pre=None):
         d1 = x.to_dict()
     except SigmaError as e:
         res["outcomes"].add(h64("to_dict-sigma-error"))
-        return  # explicitly allowed
+        if pre is None:  # refusing is allowed only for an object that a pipeline changed
+            add_violation(res, f"{sub}:to_dict-refuses-an-object-no-pipeline-touched:{mech}", case, "dict", repr(e)[:200], detail=label)
+        return
     except Exception as e:
         add_violation(res, f"{sub}:to_dict-non-sigma-exception:{type(e).__name__}:{mech}", case, "dict or SigmaError", repr(e)[:200], detail=label)
         return
